@@ -269,9 +269,19 @@ class SymArray(_np.ndarray):
 
     def __array_ufunc__(self, ufunc, method, *inputs, out=None, **kwargs):
         if out is not None:
-            # in-place: compute, then assign
-            res = self.__array_ufunc__(ufunc, method, *inputs, **kwargs)
+            # in-place: compute, then assign (with where=: only at the selected positions, the others keep what `out` holds)
+            where = kwargs.pop('where', True)
             o = out[0]
+            if where is not True and method == '__call__':
+                if o.dtype != object:
+                    o = out_obj = _np.asarray(o, dtype=object).view(SymArray)
+                full = self.__array_ufunc__(ufunc, method, *inputs, **kwargs)
+                res = elementwise(lambda w, new, old: (new if w else old) if not is_sym(w) else core.zif(w, new, old), where, full, _o(o))
+                if out[0].dtype == object:
+                    _np.ndarray.__setitem__(out[0].view(_np.ndarray), Ellipsis, _o(res))
+                    return out[0]
+                return _wrap(res)       # `out` cannot hold symbolic values (a float array): hand back the merged result
+            res = self.__array_ufunc__(ufunc, method, *inputs, **kwargs)
             _np.ndarray.__setitem__(o.view(_np.ndarray) if isinstance(o, SymArray) else o, Ellipsis, _o(res) if isinstance(res, _np.ndarray) else res)
             return o
         if not any((isinstance(x, _np.ndarray) and x.dtype == object) or is_sym(x) or isinstance(x, Fraction) for x in inputs):
